@@ -370,7 +370,10 @@ def diverging_blocks(body):
 
 
 # ---------------------------------------------------------------------- exploration with constant threading
-def explore(body, starts, avoid=(), stop=(), env=None, exempt_edges=(), want="return", targets=(), limit=200000, force=None):
+KNOWN_DISCR = {"None": 0, "Some": 1, "Ok": 0, "Err": 1, "Continue": 0, "Break": 1}
+
+
+def explore(body, starts, avoid=(), stop=(), env=None, exempt_edges=(), want="return", targets=(), limit=200000, force=None, flow=None, track=None):
     """Depth-first search over (block, known-constant locals).
 
     starts        : iterable of blocks entered at their top (or (block, env) pairs)
@@ -407,6 +410,8 @@ def explore(body, starts, avoid=(), stop=(), env=None, exempt_edges=(), want="re
                     l = op_local(rv["x"])
                     if l is not None:
                         interesting.add(l)
+    if track is not None:
+        track = set(track)
     stack = []
     for s in starts:
         if isinstance(s, tuple):
@@ -445,6 +450,28 @@ def explore(body, starts, avoid=(), stop=(), env=None, exempt_edges=(), want="re
                 e[l] = force[(bi, si_)]
                 interesting.add(l)
                 continue
+            if track is not None and l not in track:
+                if rv["k"] == "discr" and rv["p"]["l"] in track:
+                    track.add(l)
+                elif rv["k"] == "use" and op_local(rv["op"]) in track:
+                    track.add(l)
+                else:
+                    e.pop(l, None)
+                    e.pop(("d", l), None)
+                    continue
+            if rv["k"] == "agg" and rv.get("kind") == "adt" and rv.get("variant") in KNOWN_DISCR and (
+                    rv["adt"].endswith("option::Option") or rv["adt"].endswith("result::Result") or rv["adt"].endswith("ControlFlow")):
+                e[("d", l)] = KNOWN_DISCR[rv["variant"]]
+                e.pop(l, None)
+                continue
+            if rv["k"] == "discr" and not [x for x in rv["p"]["pr"] if x[0] != "*"]:
+                src = rv["p"]["l"]
+                if flow is not None and ("d", src) not in e:
+                    src = flow.canon_local(src)[0] if not flow.canon_local(src)[1] else src
+                if ("d", src) in e:
+                    e[l] = e[("d", src)]
+                    interesting.add(l)
+                    continue
             if rv["k"] == "use":
                 o = rv["op"]
                 if o.get("c") == "const" and "val" in o:
@@ -453,6 +480,10 @@ def explore(body, starts, avoid=(), stop=(), env=None, exempt_edges=(), want="re
                     m = op_local(o)
                     if m is not None and m in e:
                         val = e[m]
+                    if m is not None and ("d", m) in e:
+                        e[("d", l)] = e[("d", m)]
+                    else:
+                        e.pop(("d", l), None)
             elif rv["k"] == "un" and rv["op"] == "Not":
                 m = op_local(rv["x"])
                 if m is not None and m in e and e[m] in (0, 1):
@@ -470,6 +501,14 @@ def explore(body, starts, avoid=(), stop=(), env=None, exempt_edges=(), want="re
         if k == "call":
             d = t["dest"]
             e.pop(d["l"], None)
+            e.pop(("d", d["l"]), None)
+            cal = t.get("callee") or ""
+            if flow is not None and t["args"] and (cal.endswith("Option::is_none") or cal.endswith("Option::is_some")):
+                c0 = flow.canon_op(t["args"][0])
+                if c0 is not None and not c0[1] and ("d", c0[0]) in e and not d["pr"]:
+                    isn = e[("d", c0[0])] == 0
+                    e[d["l"]] = int(isn if cal.endswith("is_none") else not isn)
+                    interesting.add(d["l"])
         succs = body.succ[bi]
         if k == "switch":
             l = op_local(t["op"])
